@@ -5,7 +5,10 @@
 (* the real code, the backend's own regeneration rule, and a crash.              *)
 EXTENDS Naturals, FiniteSets, TLC, Json
 CONSTANTS Names,        \* file names that match the pattern
-          MaxClock, AllowCrash, MaxEdits
+          MaxClock, AllowCrash, MaxEdits,
+          Fixed         \* TRUE: the repaired algorithm (depfile replaced atomically, a cache newer than the
+                        \* outputs counts as out of date, the depfile is refreshed when regeneration is
+                        \* skipped); FALSE: the pinned tree's algorithm (kept as a vacuity guard)
 Dirs == {"R", "G"}      \* R = srcdir (always exists), G = optional subdirectory
 \* script version v: the pattern's literal base directory
 Base(v) == IF v = 1 THEN "R" ELSE "G"
@@ -33,7 +36,7 @@ Configure == /\ pc = "unconfigured"
              /\ LET w == Walk(sver, dirs, files) IN
                 /\ envf' = [st |-> "ok"]
                 /\ deps' = IF w.seen # {} THEN [st |-> "ok", dirs |-> w.seen] ELSE deps
-                /\ cache' = [st |-> "ok", sver |-> sver, found |-> w.found]
+                /\ cache' = [st |-> "ok", sver |-> sver, found |-> w.found, mt |-> clock]
                 /\ mk' = [st |-> "ok", desc |-> [sver |-> sver, found |-> w.found, inc |-> w.seen # {}], mt |-> clock]
              /\ pc' = "idle" /\ Tick
              /\ UNCHANGED <<dirs, files, dmt, sver, smt, loc, crashes, edits>>
@@ -81,35 +84,47 @@ Check == /\ pc = "check"
          /\ IF cache.st = "absent" THEN pc' = "script"
             ELSE IF cache.st = "trunc" THEN pc' = "failed"
             ELSE IF smt > (IF mk.st = "absent" THEN 0 ELSE mk.mt) THEN pc' = "script"
+            \* repaired: the cache is saved before the outputs are written, so a cache that is newer
+            \* than the outputs means the last regeneration did not get as far as writing them
+            ELSE IF Fixed /\ cache.mt > (IF mk.st = "absent" THEN 0 ELSE mk.mt) THEN pc' = "script"
             ELSE IF Walk(cache.sver, dirs, files).found # cache.found THEN pc' = "script"
-            ELSE pc' = "touch"
+            ELSE pc' = (IF Fixed /\ Walk(cache.sver, dirs, files).seen # {} THEN "skip_deps" ELSE "touch")
          /\ UNCHANGED <<mk, cache, deps, envf, clock, loc>> /\ Keep
+\* repaired: regeneration is skipped, but the directories to watch may have changed: the depfile is
+\* rewritten (atomically) from the walk just done
+SkipDeps == /\ pc = "skip_deps" /\ deps' = [st |-> "ok", dirs |-> Walk(cache.sver, dirs, files).seen]
+            /\ pc' = "touch" /\ Tick /\ UNCHANGED <<mk, cache, envf, loc>> /\ Keep
 Touch == /\ pc = "touch" /\ pc' = "done0"
          /\ mk' = (IF mk.st = "absent" THEN mk ELSE [mk EXCEPT !.mt = clock]) /\ Tick
          /\ UNCHANGED <<cache, deps, envf, loc>> /\ Keep
 Script == /\ pc = "script" /\ loc' = Walk(sver, dirs, files)
           /\ pc' = (IF loc'.seen # {} THEN "deps_open" ELSE "cache_open")
           /\ UNCHANGED <<mk, cache, deps, envf, clock>> /\ Keep
-DepsOpen == /\ pc = "deps_open" /\ deps' = [st |-> "trunc", dirs |-> {}] /\ pc' = "deps_close" /\ Tick
-            /\ UNCHANGED <<mk, cache, envf, loc>> /\ Keep
-DepsClose == /\ pc = "deps_close" /\ deps' = [st |-> "ok", dirs |-> loc.seen] /\ pc' = "cache_open" /\ Tick
+\* pinned tree: .bfg_find_deps is truncated in place; repaired: a temporary file is written and
+\* renamed into place (DepsRename), so the open/close steps do not touch the depfile itself
+DepsOpen == /\ pc = "deps_open" /\ deps' = (IF Fixed THEN deps ELSE [st |-> "trunc", dirs |-> {}])
+            /\ pc' = "deps_close" /\ Tick /\ UNCHANGED <<mk, cache, envf, loc>> /\ Keep
+DepsClose == /\ pc = "deps_close" /\ deps' = (IF Fixed THEN deps ELSE [st |-> "ok", dirs |-> loc.seen])
+             /\ pc' = (IF Fixed THEN "deps_rename" ELSE "cache_open") /\ Tick
              /\ UNCHANGED <<mk, cache, envf, loc>> /\ Keep
+DepsRename == /\ pc = "deps_rename" /\ deps' = [st |-> "ok", dirs |-> loc.seen] /\ pc' = "cache_open" /\ Tick
+              /\ UNCHANGED <<mk, cache, envf, loc>> /\ Keep
 CacheOpen == /\ pc = "cache_open" /\ cache' = [st |-> "trunc"] /\ pc' = "cache_close" /\ Tick
              /\ UNCHANGED <<mk, deps, envf, loc>> /\ Keep
-CacheClose == /\ pc = "cache_close" /\ cache' = [st |-> "ok", sver |-> sver, found |-> loc.found]
+CacheClose == /\ pc = "cache_close" /\ cache' = [st |-> "ok", sver |-> sver, found |-> loc.found, mt |-> clock]
               /\ pc' = "mk_open" /\ Tick /\ UNCHANGED <<mk, deps, envf, loc>> /\ Keep
 MkOpen == /\ pc = "mk_open" /\ mk' = [st |-> "trunc", mt |-> clock] /\ pc' = "mk_close" /\ Tick
           /\ UNCHANGED <<cache, deps, envf, loc>> /\ Keep
 MkClose == /\ pc = "mk_close"
            /\ mk' = [st |-> "ok", desc |-> [sver |-> sver, found |-> loc.found, inc |-> loc.seen # {}], mt |-> clock]
            /\ pc' = "done0" /\ Tick /\ UNCHANGED <<cache, deps, envf, loc>> /\ Keep
-Running == pc \in {"loadenv","env_open","env_close","check","touch","script","deps_open",
-                   "deps_close","cache_open","cache_close","mk_open","mk_close"}
+Running == pc \in {"loadenv","env_open","env_close","check","skip_deps","touch","script","deps_open",
+                   "deps_close","deps_rename","cache_open","cache_close","mk_open","mk_close"}
 Crash == /\ AllowCrash /\ Running /\ crashes = "none" /\ crashes' = pc /\ pc' = "idle"
          /\ UNCHANGED <<dirs, files, dmt, sver, smt, mk, cache, deps, envf, clock, loc, edits>>
 
 Next == Configure \/ Edit \/ MakeCheck \/ Ack \/ LoadEnv \/ EnvOpen \/ EnvClose \/ Check \/ Touch
-        \/ Script \/ DepsOpen \/ DepsClose \/ CacheOpen \/ CacheClose \/ MkOpen \/ MkClose \/ Crash
+        \/ Script \/ DepsOpen \/ DepsClose \/ DepsRename \/ SkipDeps \/ CacheOpen \/ CacheClose \/ MkOpen \/ MkClose \/ Crash
 Spec == Init /\ [][Next]_vars
 Bound == clock <= MaxClock
 BaseExists == Base(sver) \in dirs /\ (mk.st = "ok" => Base(mk.desc.sver) \in dirs)
